@@ -19,6 +19,7 @@ from astropy.io import fits
 from scipy.interpolate import RegularGridInterpolator
 
 from .fits_tools import compress
+from . import _verif
 
 __author__ = 'Paul Hancock'
 __version__ = 'v1.10.0'
@@ -116,6 +117,8 @@ def _sf2(args):
     try:
         return sigma_filter(*args)
     except Exception as e:
+        if _verif.ENABLED:
+            _verif.point(args[1][0], "task_raised", error=type(e).__name__)
         import traceback
         logging.warn(e)
         raise Exception("".join(traceback.format_exception(*sys.exc_info())))
@@ -157,6 +160,8 @@ def sigma_filter(filename, region, step_size, box_size, shape, domask,
     """
 
     ymin, ymax = region
+    if _verif.ENABLED:
+        _verif.point(ymin, "start", ymax=ymax)
     logging.debug('rows {0}-{1} starting at {2}'.format(ymin,
                   ymax, strftime("%Y-%m-%d %H:%M:%S", gmtime())))
 
@@ -244,9 +249,13 @@ def sigma_filter(filename, region, step_size, box_size, shape, domask,
     ibkg[ymin:ymax, :] = interp_bkg
     del ifunc, interp_bkg
     logging.debug(" ... done writing bkg")
+    if _verif.ENABLED:
+        _verif.point(ymin, "p1_done")
 
     # wait for all to complete
     i = barrier.wait()
+    if _verif.ENABLED:
+        _verif.point(ymin, "b1_after", index=i)
     if i == 0:
         barrier.reset()
 
@@ -272,10 +281,14 @@ def sigma_filter(filename, region, step_size, box_size, shape, domask,
     irms[ymin:ymax, :] = interp_rms
     del ifunc, interp_rms
     logging.debug(" .. done writing rms")
+    if _verif.ENABLED:
+        _verif.point(ymin, "p2_done")
 
     if domask:
         # wait for all to complete
         i = barrier.wait()
+        if _verif.ENABLED:
+            _verif.point(ymin, "b2_after", index=i)
         if i == 0:
             barrier.reset()
 
@@ -286,8 +299,12 @@ def sigma_filter(filename, region, step_size, box_size, shape, domask,
         ibkg[ymin:ymax, :][mask] = np.nan
         irms[ymin:ymax, :][mask] = np.nan
         logging.debug("... done applying mask")
+        if _verif.ENABLED:
+            _verif.point(ymin, "mask_done")
     logging.debug('rows {0}-{1} finished at {2}'.format(ymin,
                   ymax, strftime("%Y-%m-%d %H:%M:%S", gmtime())))
+    if _verif.ENABLED:
+        _verif.point(ymin, "end")
     return
 
 
@@ -369,6 +386,10 @@ def filter_mc_sharemem(filename, step_size, box_size, cores, shape,
         nbytes = np.prod(shape) * np.float64(1).nbytes
         ibkg = SharedMemory(name=f'ibkg_{memory_id}', create=True, size=nbytes)
         irms = SharedMemory(name=f'irms_{memory_id}', create=True, size=nbytes)
+        if _verif.ENABLED:
+            _verif.point(-1, "main_created", memory_id=memory_id,
+                         cores=cores, ymins=ymins, ymaxs=ymaxs,
+                         domask=bool(domask))
 
         # start a new process for each task, hopefully to reduce residual
         # memory use
@@ -394,11 +415,15 @@ def filter_mc_sharemem(filename, step_size, box_size, cores, shape,
                              dtype=np.float64).astype(np.float32)
             rms = np.ndarray(shape, buffer=irms.buf,
                              dtype=np.float64).astype(np.float32)
+            if _verif.ENABLED:
+                _verif.point(-1, "main_got")
     finally:
         ibkg.close()
         ibkg.unlink()
         irms.close()
         irms.unlink()
+        if _verif.ENABLED:
+            _verif.point(-1, "main_finally")
         if exit:
             sys.exit(1)
     return bkg, rms
